@@ -476,7 +476,13 @@ impl RawAutomaton {
         let mut power_transitions = Vec::with_capacity(self.transitions.len());
         let mut final_states =
             FxHashSet::with_capacity_and_hasher(self.final_states.len(), FxBuildHasher);
-        let markers = Vec::from_iter(self.markers.clone());
+        // Completion always ranges at least over the unmarked letters (an automaton without
+        // any transition has an empty marker set).
+        let mut marker_set = self.markers.clone();
+        if completion && alphabet_size > 0 {
+            marker_set.insert(0);
+        }
+        let markers = Vec::from_iter(marker_set.clone());
 
         while let Some(power_state) = pending.pop() {
             if let Entry::Vacant(entry) = visited.entry(power_state.clone()) {
@@ -538,7 +544,7 @@ impl RawAutomaton {
             initial_state: 0,
             final_states,
             transitions,
-            markers: self.markers,
+            markers: marker_set,
         }
     }
 
